@@ -591,7 +591,10 @@ def _run(prop, tier, seed, replay, workdir, log, t0):
             out_lines.append('KNOWN-FINDING: property=%s %s' % (pid, e.get('what', e['class'])))
 
     # 6. evidence
-    dist = prop.distribution(cases, obs) if hasattr(prop, 'distribution') else {}
+    try:
+        dist = prop.distribution(cases, obs) if hasattr(prop, 'distribution') else {}
+    except Exception as ex:  # an observation of an unexpected shape must not turn a verdict into a machinery error
+        dist = {'distribution unavailable': repr(ex)}
     samples = []
     step = max(1, n // 5)
     for i in list(range(0, n, step))[:5]:
